@@ -2,8 +2,11 @@
 MAIN_SOURCES = ['drv_main.cc', 'ops_base64.cc', 'ops_mime.cc', 'ops_net.cc', 'ops_headers.cc', 'ops_cookie.cc', 'ops_parser.cc', 'ops_router.cc', 'ops_async.cc']
 SCHED_SOURCES = ['drv_sched.cc']
 LIVE_SOURCES = ['drv_live.cc']
+MT_SOURCES = ['drv_mt.cc']
+TSAN_FLAGS = ['-std=c++17', '-O1', '-g', '-fno-omit-frame-pointer', '-fsanitize=thread', '-DNDEBUG', '-DPISTACHE_VERIF', '-pthread']
 ALL = [
     ('drv_main', MAIN_SOURCES, {}),
     ('drv_sched', SCHED_SOURCES, {}),
     ('drv_live', LIVE_SOURCES, {}),
+    ('drv_mt', MT_SOURCES, {}),
 ]
